@@ -174,6 +174,29 @@ pub(crate) struct WebSocketConnection {
         FuturesUnordered<BoxFuture<'static, Result<NegotiatedSubstream, ConnectionError>>>,
 }
 
+/// Verification hook: a negotiated WebSocket connection as a bare yamux endpoint. Adds code only.
+#[cfg(feature = "verif")]
+pub struct VerifRawWsPeer {
+    connection:
+        crate::yamux::ControlledConnection<NoiseSocket<BufferedStream<MaybeTlsStream<TcpStream>>>>,
+    control: crate::yamux::Control,
+}
+
+#[cfg(feature = "verif")]
+impl VerifRawWsPeer {
+    /// The yamux control handle (open outbound streams, close).
+    pub fn control(&self) -> crate::yamux::Control {
+        self.control.clone()
+    }
+
+    /// Drive the yamux connection; yields the inbound streams.
+    pub async fn next(
+        &mut self,
+    ) -> Option<Result<crate::yamux::Stream, crate::yamux::ConnectionError>> {
+        self.connection.next().await
+    }
+}
+
 impl WebSocketConnection {
     /// Create new [`WebSocketConnection`].
     pub(super) fn new(
@@ -242,6 +265,87 @@ impl WebSocketConnection {
         let names = protocols.iter().map(|protocol| &**protocol).collect::<Vec<&str>>();
 
         Self::negotiate_protocol(stream, &role, names, timeout).await
+    }
+
+    /// Verification hook: [`WebSocketConnection::accept_connection`] on an accepted TCP stream
+    /// and, with the caller's `protocol_set`, the connection object `WebSocketTransport::accept`
+    /// builds (production constructor, yamux/noise defaults). Adds code only.
+    #[cfg(feature = "verif")]
+    pub async fn verif_connection_listener(
+        stream: TcpStream,
+        keypair: Keypair,
+        connection_id: ConnectionId,
+        protocol_set: ProtocolSet,
+        substream_open_timeout: Duration,
+    ) -> Result<Self, NegotiationError> {
+        let address = stream.peer_addr().map_err(|error| NegotiationError::IoError(error.kind()))?;
+        let address = Multiaddr::empty()
+            .with(Protocol::from(address.ip()))
+            .with(Protocol::Tcp(address.port()))
+            .with(Protocol::Ws(std::borrow::Cow::Borrowed("/")));
+        // the handshake gets a generous timeout of its own; `substream_open_timeout` is what the
+        // event loop uses for substream negotiations
+        let context = Self::accept_connection(
+            stream,
+            connection_id,
+            keypair,
+            address,
+            Default::default(),
+            noise::MAX_READ_AHEAD_FACTOR,
+            noise::MAX_WRITE_BUFFER_SIZE,
+            Duration::from_secs(20),
+        )
+        .await?;
+
+        Ok(Self::new(
+            context,
+            protocol_set,
+            BandwidthSink::new(),
+            substream_open_timeout,
+        ))
+    }
+
+    /// Verification hook: the dialing end of such a connection as a bare yamux endpoint (no
+    /// event loop, no protocol set). Adds code only.
+    #[cfg(feature = "verif")]
+    pub async fn verif_raw_dialer(
+        stream: TcpStream,
+        keypair: Keypair,
+        timeout: Duration,
+    ) -> Result<VerifRawWsPeer, NegotiationError> {
+        let address = stream.peer_addr().map_err(|error| NegotiationError::IoError(error.kind()))?;
+        let url = format!("ws://{address}/");
+        let (stream, _) = tokio_tungstenite::client_async(url, MaybeTlsStream::Plain(stream))
+            .await
+            .map_err(NegotiationError::WebSocket)?;
+        let NegotiatedConnection {
+            connection,
+            control,
+            ..
+        } = Self::negotiate_connection(
+            stream,
+            None,
+            Role::Dialer,
+            Multiaddr::empty(),
+            ConnectionId::from(0usize),
+            keypair,
+            Default::default(),
+            noise::MAX_READ_AHEAD_FACTOR,
+            noise::MAX_WRITE_BUFFER_SIZE,
+            timeout,
+        )
+        .await?;
+
+        Ok(VerifRawWsPeer {
+            connection,
+            control,
+        })
+    }
+
+    /// Verification hook: the crate-private event loop. Adds code only.
+    #[cfg(feature = "verif")]
+    pub async fn verif_start(self) -> crate::Result<()> {
+        self.start().await
     }
 
     /// Open WebSocket connection.
